@@ -477,8 +477,12 @@ pub fn main(tier: Tier, replay: Option<Value>) -> i32 {
     let mut run = Run::new("C13", "exploration", tier);
     encoder(&mut run, tier);
     decoder(&mut run, tier);
+    // literal coding with a *reused* table (treeless sections): which table may be reused for which literals is
+    // decided in compress_literals; every ordered pair of small alphabets x frequency profiles as consecutive
+    // literal-only blocks (family shared with C16)
+    crate::c16::table_reuse(&mut run, tier, "C13");
     run.set("exhaustive", false);
-    run.set("rule", "encoder: every number of used symbols 2..=256 x 5 placements x 8 rank orders (+ every rank permutation up to 7/8 symbols): complete prefix code, depth <= 11, monotone in frequency, description form, description parsed by the specification and by the crate's decoder into the same lengths / canonical table, one- and four-stream coding of strings of every length 1..=12 and 1021..=1031 and around 4096/16384 decoded by the specification, compress_literals output wrapped in a frame and decoded by the walker, libzstd and the crate. decoder: every direct weight vector of <= 6/7 weights over 0..=15 and shaped vectors of every length 1..=128: accept <=> the weights complete to a power of two with depth <= 11, table equal to the canonical one entry by entry. non-trivial = valid table / Huffman section actually produced");
+    run.set("rule", "encoder: every number of used symbols 2..=256 x 5 placements x 8 rank orders (+ every rank permutation up to 7/8 symbols): complete prefix code, depth <= 11, monotone in frequency, description form, description parsed by the specification and by the crate's decoder into the same lengths / canonical table, one- and four-stream coding of strings of every length 1..=12 and 1021..=1031 and around 4096/16384 decoded by the specification, compress_literals output wrapped in a frame and decoded by the walker, libzstd and the crate; table reuse (treeless sections) for every ordered pair of alphabets that are subsets of 5/6 byte values x 9 frequency-profile pairs as three consecutive literal-only blocks. decoder: every direct weight vector of <= 6/7 weights over 0..=15 and shaped vectors of every length 1..=128: accept <=> the weights complete to a power of two with depth <= 11, table equal to the canonical one entry by entry. non-trivial = valid table / Huffman section actually produced");
     run.sample(json!({"case": "encoder", "histogram": [[0, 3], [3, 1], [6, 2], [9, 6], [12, 4], [15, 5]]}));
     run.sample(json!({"case": "decoder", "weights": [4, 3, 2, 0, 1]}));
     run.sample(json!({"case": "section", "histogram": "17 symbols, counts 1..=17", "len": 1027}));
